@@ -1,5 +1,6 @@
 """Build step, sandbox, process runner, worker pool."""
 import json
+import random
 import os
 import shutil
 import signal
@@ -159,9 +160,16 @@ class Result:
         self.rc, self.out, self.err, self.timed_out, self.wall, self.rusage = rc, out, err, timed_out, wall, rusage
 
 
-def run_proc(argv, cwd, env, timeout=60, stdin=None, stdout_path=None, tmpdir=None, stdout_fd=None, rlimit_cpu=None):
+SLOWCAT = ("import os,sys,time\nch,ms=int(sys.argv[1]),float(sys.argv[2])\nwhile True:\n b=os.read(0,ch)\n if not b: break\n"
+           " os.write(1,b)\n time.sleep(ms/1000.0)\n")
+
+
+def run_proc(argv, cwd, env, timeout=60, stdin=None, stdout_path=None, tmpdir=None, stdout_fd=None, rlimit_cpu=None,
+             slow_stderr=None):
     """Run a process in its own process group, stdout/stderr to files (not pipes).
-    On watchdog expiry send SIGQUIT (Go dumps goroutines), then SIGKILL the group."""
+    On watchdog expiry send SIGQUIT (Go dumps goroutines), then SIGKILL the group.
+    slow_stderr=(chunk bytes, pause ms): stderr goes through a pipe whose reader takes `chunk` bytes, then pauses (a terminal
+    that scrolls slowly, a remote shell): writers of stderr are throttled, nothing is lost."""
     tmpdir = tmpdir or tempfile.gettempdir()
     of = None
     if stdout_fd is None:
@@ -175,8 +183,16 @@ def run_proc(argv, cwd, env, timeout=60, stdin=None, stdout_path=None, tmpdir=No
             import resource
             resource.setrlimit(resource.RLIMIT_CPU, (rlimit_cpu, rlimit_cpu + 5))
 
-    p = subprocess.Popen(argv, cwd=cwd, env=env, stdin=stdin if stdin is not None else subprocess.DEVNULL,
-                         stdout=stdout_fd if stdout_fd is not None else of, stderr=ef, preexec_fn=pre)
+    cat = None
+    if slow_stderr:
+        p = subprocess.Popen(argv, cwd=cwd, env=env, stdin=stdin if stdin is not None else subprocess.DEVNULL,
+                             stdout=stdout_fd if stdout_fd is not None else of, stderr=subprocess.PIPE, preexec_fn=pre)
+        cat = subprocess.Popen([sys.executable, "-c", SLOWCAT, str(slow_stderr[0]), str(slow_stderr[1])], stdin=p.stderr, stdout=ef,
+                               stderr=subprocess.DEVNULL)
+        p.stderr.close()
+    else:
+        p = subprocess.Popen(argv, cwd=cwd, env=env, stdin=stdin if stdin is not None else subprocess.DEVNULL,
+                             stdout=stdout_fd if stdout_fd is not None else of, stderr=ef, preexec_fn=pre)
     timed_out = False
     try:
         p.wait(timeout=timeout)
@@ -204,6 +220,12 @@ def run_proc(argv, cwd, env, timeout=60, stdin=None, stdout_path=None, tmpdir=No
     except (ProcessLookupError, PermissionError):
         pass
     p.wait()
+    if cat is not None:
+        try:
+            cat.wait(timeout=60)
+        except subprocess.TimeoutExpired:
+            cat.kill()
+            cat.wait()
     wall = time.time() - t0
     out = b""
     if of is not None:
@@ -326,6 +348,118 @@ def fault_probe(chk, prefix, binary, cwd, argv, rng, shimdir, tmpdir, n=3, env=N
                           {"argv": argv, "rule": rule, "out": r.out[:200]})
     chk.bump("fault_probes_delivered", delivered)
     return delivered
+
+
+class Collector:
+    """Stands in for a Check inside worker processes: counts and violations go into a plain dict."""
+
+    def __init__(self, out, evals_key="evals", strip_prefix=None):
+        self.out, self.k, self.strip = out, evals_key, strip_prefix
+
+    def count(self, n=1):
+        self.out[self.k] = self.out.get(self.k, 0) + n
+
+    def bump(self, key, n=1):
+        self.out[key] = self.out.get(key, 0) + n
+
+    def violation(self, sig, det):
+        if self.strip and sig.startswith(self.strip):
+            sig = sig[len(self.strip):]
+        self.out["viol"].append((sig, det))
+
+
+def limited_stdout(argv, cwd, env, limit, timeout=60, tmpdir=None):
+    """Run argv with stdout on a memory file that cannot grow beyond `limit` bytes (memfd sealed against growing): a write that
+    would pass the limit fails with EPERM, without any signal - the behaviour of a full disk or an exhausted quota at that
+    point of the output. Returns (Result with .out = the bytes that were accepted, bytes accepted)."""
+    import fcntl
+    fd = os.memfd_create("limited-stdout", os.MFD_ALLOW_SEALING)
+    try:
+        os.ftruncate(fd, limit)
+        fcntl.fcntl(fd, fcntl.F_ADD_SEALS, fcntl.F_SEAL_GROW | fcntl.F_SEAL_SHRINK)
+        r = run_proc(argv, cwd, env, timeout=timeout, tmpdir=tmpdir, stdout_fd=fd)
+        written = os.lseek(fd, 0, os.SEEK_CUR)
+        r.out = os.pread(fd, written, 0) if written else b""
+        return r, written
+    finally:
+        os.close(fd)
+
+
+def output_limit_sweep(binary, cwd, argv, env=None, tmpdir=None, max_points=40, rng=None):
+    """The fault-free report, then the same run with stdout limited to every line boundary (and a few other lengths) of that
+    report. Returns (baseline bytes or None, [(limit, Result, accepted bytes)])."""
+    e = base_env(env)
+    r0 = run_proc([binary] + list(argv), cwd, e, tmpdir=tmpdir)
+    if r0.rc != 0 or not r0.out:
+        return None, []
+    L = len(r0.out)
+    pts = {0, 1, L - 1}
+    acc = 0
+    for line in r0.out.split(b"\n")[:-1]:
+        acc += len(line) + 1
+        pts.add(acc)
+    pts.discard(L)
+    pts = sorted(x for x in pts if 0 <= x < L)
+    if len(pts) > max_points:
+        rr = rng or random.Random(L)
+        keep = set(pts[:4] + pts[-12:])
+        keep |= set(rr.sample(pts, max_points - len(keep)))
+        pts = sorted(keep)
+    out = []
+    for n in pts:
+        r, w = limited_stdout([binary] + list(argv), cwd, e, n, tmpdir=tmpdir)
+        out.append((n, r, w))
+    return r0.out, out
+
+
+def fault_sweep(chk, prefix, binary, cwd, argv, shimdir, tmpdir, env=None, only=None):
+    """Deterministic companion of fault_probe: learns the git children of the fault-free run from the shim's record, then
+    lets each of them fail before it starts, before its first byte, inside its first line, half-way, one byte short and after
+    its whole output. A run that still exits 0 must print exactly the fault-free report (whether a failing run is handled
+    well is C10's business). Returns the number of delivered faults."""
+    pdir = os.path.join(tmpdir, "sweep-rec-%d-%d" % (os.getpid(), random.getrandbits(30)))
+    plan = make_plan(pdir, [], record=True)
+    r0 = sizer(binary, cwd, argv, env=env, shimdir=shimdir, plan=plan, tmpdir=tmpdir)
+    evs = read_events(pdir)
+    shutil.rmtree(pdir, ignore_errors=True)
+    if r0.rc != 0 or r0.timed_out or not evs:
+        return 0
+    baseline = r0.out
+    delivered = 0
+    k = 0
+    for e in evs:
+        if only and not any(e["sig"].startswith(o) for o in only):
+            continue
+        L = e.get("real_bytes", 0)
+        pts = [("before_exec", None)] + [("after", n) for n in sorted({0, min(L, 30), L // 2, max(0, L - 1), L})]
+        for kind, n in pts:
+            k += 1
+            rule = {"sig": e["sig"], "ord": e["ord"], "mode": "fault", "term": ["exit:128", "sig:KILL", "exit:2"][k % 3]}
+            if kind == "before_exec":
+                rule["before_exec"] = True
+            else:
+                rule["after_bytes"] = n
+            pd = os.path.join(tmpdir, "sweep-%d-%d" % (os.getpid(), random.getrandbits(30)))
+            r = sizer(binary, cwd, argv, env=env, shimdir=shimdir, plan=make_plan(pd, [rule]), tmpdir=tmpdir, timeout=30)
+            fe = read_events(pd)
+            shutil.rmtree(pd, ignore_errors=True)
+            chk.count()
+            if not any(x.get("delivered") and x.get("mode") == "fault" for x in fe):
+                continue
+            delivered += 1
+            chk.bump("fault_sweep_faults_delivered")
+            if r.rc == 0 and not r.timed_out and r.out != baseline:
+                chk.violation("%s/fault-probe/exit-0-but-report-differs-from-fault-free-run/%s" % (prefix, e["sig"].split(" ")[0]),
+                              {"argv": argv, "rule": rule, "stderr": r.err[-300:].decode("utf-8", "replace"),
+                               "first_difference": _first_diff_lines(baseline, r.out)})
+    return delivered
+
+
+def _first_diff_lines(a, b):
+    for x, y in zip(a.split(b"\n"), b.split(b"\n")):
+        if x != y:
+            return [x[:160].decode("utf-8", "replace"), y[:160].decode("utf-8", "replace")]
+    return ["<length>", "%d vs %d bytes" % (len(a), len(b))]
 
 
 def ambient(rng, p_trace=0.15):
